@@ -48,7 +48,7 @@ def eval_one(spec, bindir, kind, obj, tag='one'):
     c = Case(kind, obj)
     c.cid = 'x'
     line = case_line(spec, c)
-    impl, model, verdict = runner.evaluate(tag, [line], bindir, shards=1, timeout=120, obs_bin=spec.obs_bin)
+    impl, model, verdict = runner.evaluate(spec.pid, tag, [line], bindir, shards=1, timeout=120, obs_bin=spec.obs_bin)
     return line, impl.get('x', {}), model.get('x', {}), verdict.get('x', '')
 
 def is_fail(v):
@@ -136,7 +136,7 @@ def check(prop, tier, seed):
     mismatches, fails, skipped = [], [], 0
     impl = model = verdict = {}
     if bindir and not any('extraction' in p or 'ocaml driver' in p for p in proof['problems']) and os.path.exists(build.DRIVER):
-        impl, model, verdict = runner.evaluate(prop, lines, bindir, obs_bin=spec.obs_bin,
+        impl, model, verdict = runner.evaluate(prop, prop, lines, bindir, obs_bin=spec.obs_bin,
                                                timeout=spec.timeout.get(tier, 1800))
         for c in cases:
             iv, mv, v = impl.get(c.cid, {}), model.get(c.cid, {}), verdict.get(c.cid, 'FAIL clause=no-verdict')
@@ -319,7 +319,7 @@ def replay(path):
     if not case:
         print(json.dumps(r, indent=1))
         return 0
-    impl, model, verdict = runner.evaluate('replay', ['r ' + case], bindir, shards=1, obs_bin=spec.obs_bin)
+    impl, model, verdict = runner.evaluate(prop, 'replay', ['r ' + case], bindir, shards=1, obs_bin=spec.obs_bin)
     print('case:    ', case)
     print('impl:    ', impl.get('r'))
     print('model:   ', model.get('r'))
